@@ -885,7 +885,8 @@ fn positive(text: &str, derivation: Option<(&Grammar, &DNode, &[(usize, usize)])
                                     while t.starts_with("/*") {
                                         t = t.find("*/").map(|i| t[i + 2..].trim_start()).unwrap_or("");
                                     }
-                                    t.starts_with('"') && t.trim_end().ends_with('"')
+                                    // (the concatenated literal may be pasted on: `"a" "b" # x`)
+                                    t.starts_with('"')
                                 }
                             });
                         ctx.violation(
